@@ -591,4 +591,46 @@ theorem serialRound_searched (kc : Ktn.Cfg) (pairs : List ((Nat × Nat) × List 
       congr 1
       exact List.filterMap_congr (fun i _ => (htail i).symm)
 
+
+/-- one step of the refinement -/
+theorem step_tracks (kern : Kernel) (kc : Ktn.Cfg) (hkc : kc.removeRenumbersHistory = true)
+    {s : Ktn δ} {a : Abs} (h : R s a) (op : HOp δ) (hv : op.valid s = true) :
+    R (hstep kern Cfg.repaired kc s op) (astep kern Cfg.repaired kc s a op) := by
+  cases op with
+  | round par pairs =>
+    simp only [HOp.valid, Bool.and_eq_true] at hv
+    obtain ⟨hr1, hr2⟩ := round_grow kern Cfg.repaired kc par pairs s hv.2
+    simp only [hstep, astep]
+    have hg : R ({ s with nMin := (round kern Cfg.repaired kc par s pairs).1.nMin } : Ktn δ)
+        (a.grow ((round kern Cfg.repaired kc par s pairs).1.nMin - s.nMin)) :=
+      R_grow h _ rfl (by simp only []; omega)
+    refine R_record (s' := (round kern Cfg.repaired kc par s pairs).1) hg (pairs.map (·.1)) ?_ ?_ rfl
+    · intro p hp
+      have := hv.1
+      simp only [pairsValid, List.all_eq_true, Bool.and_eq_true, decide_eq_true_eq] at this
+      have := this p hp
+      simp only []; omega
+    · rw [hr1]; simp [recordRound, Cfg.repaired, reinitIfEmpty_eq]
+  | removeMin k =>
+    simp only [HOp.valid, decide_eq_true_eq] at hv
+    simp only [hstep, astep, hkc]
+    exact R_remove h k hv
+  | removeMinima ks =>
+    simp only [HOp.valid, Bool.and_eq_true, List.all_eq_true, decide_eq_true_eq] at hv
+    simp only [hstep, astep, hkc]
+    exact R_removeMinima h ks hv.1 hv.2
+  | addNetwork eff other φ =>
+    simp only [HOp.valid, Bool.and_eq_true] at hv
+    obtain ⟨e1, e2⟩ := applyEffects_grow kc eff s hv.1.1
+    simp only [hstep, astep, addNetwork]
+    have hg : R (applyEffects kc s eff) (a.grow (countAddMin eff)) := R_grow h _ e1 e2
+    refine R_merge hg other φ ?_ rfl rfl
+    rw [e2]; exact hv.1.2
+  | reset => exact R_reset h
+  | dumpRead => exact h
+  | grow eff =>
+    simp only [HOp.valid] at hv
+    obtain ⟨e1, e2⟩ := applyEffects_grow kc eff s hv
+    exact R_grow h _ e1 e2
+
 end TopSearch.History
